@@ -44,8 +44,8 @@ class C12(flow.Spec):
                'connectNonNamedObjArg(s), attachSiblingsAsArgs - i.e. all of ParseAML']
 
     def gen_cases(self, rng, tier):
-        n_lex = {'quick': 1400, 'thorough': 40000, 'search': 3000}[tier]
-        n_parse = {'quick': 1600, 'thorough': 50000, 'search': 5000}[tier]
+        n_lex = {'quick': 1400, 'thorough': 20000, 'search': 3000}[tier]
+        n_parse = {'quick': 1600, 'thorough': 30000, 'search': 5000}[tier]
         out = []
         for _ in range(n_lex):
             out.append(amlgen.lex_case(rng))
